@@ -389,9 +389,18 @@ def history_stage(tier):
                     continue
                 tjobs += [J([u], max_step=m), J([w], max_step=m), J([u, w], max_step=m), J([w, u, w], max_step=m)]
                 tplan.append(len(tjobs) - 4)
+            # a narrow beam leaves unpopped tags behind in the per-token queues: the next sentence must not see them
+            nplan = []
+            for (i, k), (_, u, w, J) in list(zip(plan, tight))[:(8 if q else 40)]:
+                tjobs += [J([u], pruning_size=1), J([w], pruning_size=1), J([u, w], pruning_size=1), J([w, u, w], pruning_size=1)]
+                nplan.append(len(tjobs) - 4)
+                # ... also when every tag of the later sentence scores below the tags the earlier one left behind
+                low = dict(w, tag=[[x - 7 for x in row] for row in w['tag']])
+                tjobs += [J([u], pruning_size=1), J([low], pruning_size=1), J([u, low], pruning_size=1), J([low, u, low], pruning_size=1)]
+                nplan.append(len(tjobs) - 4)
             tres = bn.run(tjobs, timeout=900) if tjobs else []
             info['batches'] += len(tjobs)
-            for k in tplan:
+            for k in tplan + nplan:
                 su, sw, uw2, wuw2 = tres[k:k + 4]
                 if any(x.get('error') for x in (su, sw, uw2, wuw2)):
                     bad.append(('history.run-raises', dict(grammar=g['name'], error=[x.get('error') for x in (su, sw, uw2, wuw2) if x.get('error')][0][:300])))
@@ -402,7 +411,8 @@ def history_stage(tier):
 
                 def key2(x, s):
                     return [(t['key'], t['score'], t['placeholder']) for t in x['sentences'][s]]
-                for name, a, b in (('step-budget-shared-across-sentences', key2(uw2, 1), key2(sw, 0)), ('step-budget-shared-across-sentences', key2(uw2, 0), key2(su, 0)), ('step-budget-shared-across-sentences', key2(wuw2, 2), key2(sw, 0))):
+                what = 'step-budget-shared-across-sentences' if k in tplan else 'narrow-beam-state-kept-across-sentences'
+                for name, a, b in ((what, key2(uw2, 1), key2(sw, 0)), (what, key2(uw2, 0), key2(su, 0)), (what, key2(wuw2, 2), key2(sw, 0))):
                     if a != b:
                         bad.append(('history.result-differs.' + name, dict(grammar=g['name'], got=a, solo=b, job=tjobs[k + 2])))
                         break
